@@ -1,13 +1,14 @@
 //! C06 — foreign keys are pure substitution; unresolvable / cyclic references are rejected.
 
-use vcommon::ctx::Ctx;
+use serde_json::json;
+use vcommon::ctx::{hash_str, CaseInfo, CaseResult, Ctx, Failure};
 use vcommon::gen::{leaf_paths, GenCfg};
 use vcommon::model::*;
 use vcommon::tape::Tape;
 
 use crate::eval::Scratch;
-use crate::projcheck::CheckOpts;
-use crate::props::common::project_case;
+use crate::projcheck::{check_project, CheckOpts};
+use crate::props::common::{project_case, std_classes};
 
 pub fn cfg() -> GenCfg {
     GenCfg {
@@ -167,6 +168,35 @@ fn mutate(p: &mut Project, t: &mut Tape) -> Option<String> {
     }
 }
 
+/// one inherits map of the enumerated domain: the C03 project plus reference keys (see `c06_project_for_map`)
+fn enum_case(map: [usize; 3], scratch: &Scratch) -> CaseResult {
+    let p = vcommon::gen::c06_project_for_map(map);
+    let mut t = Tape::new(vec![]);
+    let opts = CheckOpts {
+        assignments: 1,
+        ..CheckOpts::default()
+    };
+    let st = check_project(&p, &opts, &scratch.0.join("e"), &mut t).map_err(|mut f| {
+        f.detail["case"] = json!({"map": map});
+        f
+    })?;
+    if st.expected_error {
+        return Err(Failure {
+            signature: "harness-model".into(),
+            detail: json!({"error": "the enumerated reference project is rejected by the model", "kinds": st.expected_error_kinds, "case": {"map": map}}),
+        });
+    }
+    let mut classes = std_classes(&p, &st);
+    classes.push("enumerated-reference-domain".to_string());
+    Ok(CaseInfo {
+        hash: hash_str(&format!("c06-enum{map:?}")),
+        nontrivial: true,
+        classes,
+        sample: if map == [2, 3, 0] { Some(json!({"enumerated": {"map": map}, "locales": p.locales, "inherits": p.inherits, "reference_keys_per_pattern": ["ra: <$t(p_k0)>", "rb: $t(p_k1, {name: ..})", "rc: $t(gl.leaf)", "rd: $t(p_k2, {count: 0})", "re: $t(p_k2)", "rf: $t(p_k3, {count: 1})", "rr: [$t(ra)]", "rn: $t(p_k0), null in fr and es"]})) } else { None },
+        observations: st.observations,
+    })
+}
+
 pub fn run(mut ctx: Ctx) -> ! {
     let scratch = Scratch::new("c06");
     let case = |t: &mut Tape| {
@@ -175,8 +205,35 @@ pub fn run(mut ctx: Ctx) -> ! {
         })
     };
     if let Some(path) = ctx.replay.clone() {
-        ctx.replay_tape("l1", &path, case);
+        if vcommon::ctx::Ctx::replay_engine(&path).as_deref() == Some("l1-enum") {
+            let v: serde_json::Value = serde_json::from_str(&std::fs::read_to_string(&path).unwrap_or_default()).unwrap_or_default();
+            let m: Vec<usize> = v["detail"]["case"]["map"].as_array().map(|a| a.iter().map(|x| x.as_u64().unwrap_or(0) as usize).collect()).unwrap_or_default();
+            if m.len() == 3 {
+                match enum_case([m[0], m[1], m[2]], &scratch) {
+                    Ok(i) => ctx.record(i),
+                    Err(f) => {
+                        ctx.fail("l1-enum", None, &f);
+                    }
+                }
+            }
+        } else {
+            ctx.replay_tape("l1", &path, case);
+        }
     } else {
+        // references over the enumerated 4-locale domain: every inherits map, every presence pattern of the target
+        let mut complete = true;
+        for m in 0..125usize {
+            match enum_case([m % 5, (m / 5) % 5, m / 25], &scratch) {
+                Ok(i) => ctx.record(i),
+                Err(f) => {
+                    complete = false;
+                    if ctx.fail("l1-enum", None, &f) {
+                        break;
+                    }
+                }
+            }
+        }
+        ctx.set_extra("enumerated_domain", json!({"inherits_maps": 125, "presence_patterns_of_the_target": 27, "reference_shapes": 8, "complete": complete}));
         let cases = ctx.tier.scale(4000, 120000);
         ctx.run_tapes("l1", cases, 1500, case);
     }
